@@ -84,6 +84,66 @@ pub fn make_batch(entries: &[Entry]) -> Result<WriteBatch, sst::SError> {
     Ok(wb)
 }
 
+/// How a write batch is put together.
+#[derive(Clone, Copy, Debug, Default, PartialEq, Eq, Serialize, Deserialize)]
+pub enum Via {
+    /// `WriteBatch::put` / `del` per entry
+    #[default]
+    PutDel,
+    /// `WriteBatch::insert(KeyValueRef)` per entry
+    Insert,
+    /// two halves built with put / del, the second merged into the first with `WriteBatch::merge`
+    /// (a one-entry batch is merged into an empty one)
+    Merge,
+    /// every second entry through `insert`, and the whole merged into an empty batch
+    Mixed,
+}
+
+pub fn via_strategy() -> impl Strategy<Value = Via> {
+    prop_oneof![5 => Just(Via::PutDel), 2 => Just(Via::Insert), 2 => Just(Via::Merge), 1 => Just(Via::Mixed)]
+}
+
+fn insert_entry(wb: &mut WriteBatch, e: &Entry) -> Result<(), sst::SError> {
+    wb.insert(sst::KeyValueRef { key: &e.key, timestamp: e.ts, value: e.val.as_deref() })
+}
+
+/// The same batch as `make_batch`, built through the other public calls of `WriteBatch`.
+pub fn make_batch_via(entries: &[Entry], via: Via) -> Result<WriteBatch, sst::SError> {
+    match via {
+        Via::PutDel => make_batch(entries),
+        Via::Insert => {
+            let mut wb = WriteBatch::default();
+            for e in entries {
+                insert_entry(&mut wb, e)?;
+            }
+            Ok(wb)
+        }
+        Via::Merge => {
+            let mid = entries.len() / 2;
+            let mut a = make_batch(&entries[..mid])?;
+            let b = make_batch(&entries[mid..])?;
+            a.merge(&b)?;
+            Ok(a)
+        }
+        Via::Mixed => {
+            let mut inner = WriteBatch::default();
+            for (i, e) in entries.iter().enumerate() {
+                if i % 2 == 0 {
+                    insert_entry(&mut inner, e)?;
+                } else {
+                    match &e.val {
+                        Some(v) => inner.put(&e.key, e.ts, v)?,
+                        None => inner.del(&e.key, e.ts)?,
+                    }
+                }
+            }
+            let mut wb = WriteBatch::default();
+            wb.merge(&inner)?;
+            Ok(wb)
+        }
+    }
+}
+
 pub fn setsum_of(entries: &[Entry]) -> sst::Setsum {
     let mut s = sst::Setsum::default();
     for e in entries {
@@ -275,48 +335,70 @@ fn parse_header(h: &[u8]) -> Result<(u64, u32, u32), String> {
 /// does not fit is split into a FIRST frame, zeros up to the boundary, and a SECOND frame; every
 /// frame carries at least one payload byte.
 pub fn parse_frames(b: &[u8]) -> Result<Vec<Frame>, String> {
+    let (out, stop) = parse_frames_lenient(b);
+    match stop {
+        None => Ok(out),
+        Some((_, e)) => Err(e),
+    }
+}
+
+/// The frames of the longest well-formed prefix, and where / why parsing stopped (None = the whole
+/// image is well formed).
+pub fn parse_frames_lenient(b: &[u8]) -> (Vec<Frame>, Option<(u64, String)>) {
     let mut out = vec![];
     let mut pos = 0usize;
     let mut pad = 0u64;
+    let mut pad_from = 0usize;
+    macro_rules! stop {
+        ($at:expr, $($m:tt)*) => {
+            return (out, Some(($at as u64, format!($($m)*))))
+        };
+    }
     while pos < b.len() {
         let hs = b[pos] as usize;
         if hs == 0 {
             let nb = if (pos as u64 + 1) % BLOCK == 0 { pos + 1 } else { next_boundary(pos as u64 + 1) as usize };
             if nb > b.len() {
-                return Err(format!("padding at {pos} runs past the end of the file"));
+                stop!(pos, "padding at {pos} runs past the end of the file");
             }
             if nb - pos > HMAX as usize {
-                return Err(format!("padding of {} bytes at {pos} exceeds HEADER_MAX_SIZE", nb - pos));
+                stop!(pos, "padding of {} bytes at {pos} exceeds HEADER_MAX_SIZE", nb - pos);
             }
             if b[pos..nb].iter().any(|x| *x != 0) {
-                return Err(format!("padding at {pos}..{nb} is not all zero"));
+                stop!(pos, "padding at {pos}..{nb} is not all zero");
+            }
+            if pad == 0 {
+                pad_from = pos;
             }
             pad += (nb - pos) as u64;
             pos = nb;
             continue;
         }
         if hs as u64 > HMAX {
-            return Err(format!("header length {hs} at {pos} exceeds HEADER_MAX_SIZE"));
+            stop!(pos, "header length {hs} at {pos} exceeds HEADER_MAX_SIZE");
         }
-        let h = b.get(pos + 1..pos + 1 + hs).ok_or(format!("header at {pos} runs past the end"))?;
-        let (size, disc, crc) = parse_header(h).map_err(|e| format!("header at {pos}: {e}"))?;
+        let Some(h) = b.get(pos + 1..pos + 1 + hs) else { stop!(pos, "header at {pos} runs past the end") };
+        let (size, disc, crc) = match parse_header(h) {
+            Ok(x) => x,
+            Err(e) => stop!(pos, "header at {pos}: {e}"),
+        };
         let ps = pos + 1 + hs;
-        let pe = ps + size as usize;
-        let payload = b.get(ps..pe).ok_or(format!("frame at {pos} (size {size}) runs past the end"))?;
+        let pe = ps.saturating_add(size as usize);
+        let Some(payload) = b.get(ps..pe) else { stop!(pos, "frame at {pos} (size {size}) runs past the end") };
         if crc32c::crc32c(payload) != crc {
-            return Err(format!("frame at {pos}: crc mismatch"));
+            stop!(pos, "frame at {pos}: crc mismatch");
         }
         if size == 0 {
-            return Err(format!("frame at {pos} (discriminant {disc}) carries no payload"));
+            stop!(pos, "frame at {pos} (discriminant {disc}) carries no payload");
         }
         out.push(Frame { start: pos as u64, hdr_len: 1 + hs as u64, size, disc, crc, end: pe as u64, pad_before: pad });
         pad = 0;
         pos = pe;
     }
     if pad != 0 {
-        return Err("file ends with padding".into());
+        stop!(pad_from, "file ends with padding");
     }
-    Ok(out)
+    (out, None)
 }
 
 pub fn group_frames(frames: &[Frame]) -> Result<Vec<Group>, String> {
@@ -388,6 +470,140 @@ pub fn check_placement(groups: &[Group]) -> Result<(), String> {
         }
     }
     Ok(())
+}
+
+////////////////////////////////////////////// options /////////////////////////////////////////////
+
+/// The fields of `LogOptions` that differ from the default (the fields are crate-private; the
+/// options are built through the crate's command-line parser, the way every binary sets them).
+#[derive(Clone, Debug, Default, PartialEq, Eq, Serialize, Deserialize)]
+pub struct OptShape {
+    #[serde(default)]
+    pub write_buffer: Option<u32>,
+    #[serde(default)]
+    pub read_buffer: Option<u32>,
+    #[serde(default)]
+    pub rollover_size: Option<u32>,
+}
+
+impl OptShape {
+    pub fn is_default(&self) -> bool {
+        *self == OptShape::default()
+    }
+
+    pub fn build(&self) -> sst::log::LogOptions {
+        use arrrg::CommandLine;
+        let mut args: Vec<String> = vec![];
+        if let Some(w) = self.write_buffer {
+            args.push("--write-buffer".into());
+            args.push(w.to_string());
+        }
+        if let Some(r) = self.read_buffer {
+            args.push("--read-buffer".into());
+            args.push(r.to_string());
+        }
+        if let Some(r) = self.rollover_size {
+            args.push("--rollover-size".into());
+            args.push(r.to_string());
+        }
+        if args.is_empty() {
+            return sst::log::LogOptions::default();
+        }
+        let refs: Vec<&str> = args.iter().map(|s| s.as_str()).collect();
+        let (opts, free) = sst::log::LogOptions::from_arguments_relaxed("c12", &refs);
+        assert!(free.is_empty(), "unparsed log options: {free:?}");
+        opts
+    }
+
+    pub fn labels(&self, o: &mut vcore::Outcome) {
+        let class = |b: u32| match b as u64 {
+            0 => "0",
+            1 => "1",
+            2..=17 => "2-17",
+            18..=21 => "18-21(header-sized)",
+            22..=4095 => "22-4095",
+            4096..=1_048_574 => "4KiB-1MiB",
+            1_048_575..=1_048_577 => "1MiB+-1",
+            1_048_578..=2_097_150 => "1MiB-2MiB",
+            2_097_151..=2_097_153 => "2MiB+-1",
+            _ => ">2MiB",
+        };
+        o.label(format!("opts:write-buffer:{}", self.write_buffer.map(class).unwrap_or("default")));
+        o.label(format!("opts:read-buffer:{}", self.read_buffer.map(class).unwrap_or("default")));
+    }
+}
+
+pub fn buffer_size() -> impl Strategy<Value = Option<u32>> {
+    prop_oneof![
+        6 => Just(None),
+        1 => Just(Some(0u32)),
+        2 => Just(Some(1u32)),
+        1 => (2u32..18).prop_map(Some),
+        2 => (18u32..22).prop_map(Some),
+        1 => (22u32..4096).prop_map(Some),
+        2 => Just(Some(4096u32)),
+        1 => (4097u32..1_048_575).prop_map(Some),
+        2 => (1_048_575u32..1_048_578).prop_map(Some),
+        1 => (1_048_578u32..2_097_151).prop_map(Some),
+        1 => (2_097_151u32..2_097_154).prop_map(Some),
+        1 => Just(Some(4_194_304u32)),
+    ]
+}
+
+/// Read and write buffer sizes (the roll-over size is varied by its own generator).
+pub fn opt_shape() -> impl Strategy<Value = OptShape> {
+    prop_oneof![
+        2 => Just(OptShape::default()),
+        3 => (buffer_size(), buffer_size()).prop_map(|(write_buffer, read_buffer)| OptShape { write_buffer, read_buffer, rollover_size: None }),
+    ]
+}
+
+/////////////////////////////////////// exact sizes, tagged keys ///////////////////////////////////
+
+/// Key length and timestamp of the entries of the concurrent parts' exactly sized batches.
+pub const TAGGED_KLEN: usize = 12;
+pub const TAGGED_TS: u64 = 1;
+
+fn solve_tagged(size: usize) -> Option<Option<usize>> {
+    if size == entry_size(TAGGED_KLEN, TAGGED_TS, None) {
+        return Some(None);
+    }
+    let base = entry_size(TAGGED_KLEN, TAGGED_TS, Some(0));
+    if size < base {
+        return None;
+    }
+    let guess = size - base;
+    (guess.saturating_sub(8)..=guess).find(|v| *v <= MAX_VALUE && entry_size(TAGGED_KLEN, TAGGED_TS, Some(*v)) == size).map(Some)
+}
+
+/// Value lengths (None = tombstone) of entries with 12-byte keys and timestamp 1 whose batch payload
+/// is exactly `target` bytes.
+pub fn plan_exact_tagged(target: usize) -> Option<Vec<Option<usize>>> {
+    let max_e = entry_size(TAGGED_KLEN, TAGGED_TS, Some(MAX_VALUE));
+    let mut out = vec![];
+    let mut rem = target;
+    while rem > max_e {
+        // leave at least 64 bytes for the closing entries
+        let take = if rem - max_e >= 64 { max_e } else { max_e - 64 };
+        let v = solve_tagged(take).or_else(|| solve_tagged(take - 1))?;
+        rem -= entry_size(TAGGED_KLEN, TAGGED_TS, v);
+        out.push(v);
+    }
+    if let Some(v) = solve_tagged(rem) {
+        out.push(v);
+        return Some(out);
+    }
+    let tomb = entry_size(TAGGED_KLEN, TAGGED_TS, None);
+    for first in std::iter::once(tomb).chain((0..12).map(|v| entry_size(TAGGED_KLEN, TAGGED_TS, Some(v)))) {
+        if rem > first {
+            if let (Some(a), Some(b)) = (solve_tagged(first), solve_tagged(rem - first)) {
+                out.push(a);
+                out.push(b);
+                return Some(out);
+            }
+        }
+    }
+    None
 }
 
 /////////////////////////////////////////// strategies /////////////////////////////////////////////
